@@ -209,11 +209,11 @@ func checkC02(P *Prog, r *Result) {
 	// re-initialised (C07's rule restricted to SchemaCtx: no path or memo of an earlier node survives), and each
 	// field's schema runs on the field of that name (C03's rule) ----
 	shareRule(P, r, checkC10, "C10/path-writers", nil, "C02/issue-path", 4)
-	shareRule(P, r, checkC07, "C07/reinit", func(o Obligation) bool { return strings.Contains(o.Construct, "#zog/internals.SchemaCtx.") }, "C02/issue-path", 8)
-	shareRule(P, r, checkC03, "C03/struct-writes-by-field", nil, "C02/issue-path", 10)
+	shareRule(P, r, checkC07, "C07/reinit", func(o Obligation) bool { return strings.Contains(o.Construct, "#zog/internals.SchemaCtx.") }, "C02/issue-path", 0)
+	shareRule(P, r, checkC03, "C03/struct-writes-by-field", nil, "C02/issue-path", 4) // (floor over the three adoptions together, without the recycled-object part)
 	// an issue object belongs to one report: an issue released to the pool twice is handed to two later
 	// violations, one of which then shows the other's code and path (C07's release-multiplicity rule)
-	shareRule(P, r, checkC07, "C07/release-multiplicity", nil, "C02/issue-object-unique", 1)
+	shareRule(P, r, checkC07, "C07/release-multiplicity", nil, "C02/issue-object-unique", 0)
 	// no spurious issue: a typed nil record is an empty record (each required field reports), not one coerce
 	// issue at the struct node that hides them (C04's nil-record rule)
 	shareRule(P, r, checkC04, "C04/nil-record-absent", nil, "C02/nil-record-not-a-coerce-issue", 1)
